@@ -39,7 +39,9 @@ func c19Ident(r *wk.Rand, used map[string]bool) string {
 		}
 		s := string(b)
 		if r.Chance(8) {
-			s = wk.Pick(r, []string{"Type", "Func", "Map", "string", "error", "int64", "ObjectMeta", "v1", "metav1", "any", "nil", "true"})
+			s = wk.Pick(r, []string{"Type", "Func", "Map", "string", "error", "int64", "ObjectMeta", "v1", "metav1", "any", "nil", "true",
+				// names that merely begin like a type ID
+				"interval", "internalEndpoint", "intOrString", "floatingIP", "stringer", "boolish", "listing", "mapper", "objective", "refund", "patterns", "anyone", "integers"})
 		} else if r.Chance(6) {
 			// valid identifiers that do not start with an ASCII letter
 			s = wk.Pick(r, []string{"élan", "Überwachung", "имя", "名前", "ñandu", "çevre", "über9", "Ärger", "naïve", "Ωmega"})
@@ -110,8 +112,11 @@ func c19Gen(r *wk.Rand) []c19Obj {
 			if p.typeID == "ref" {
 				if r.Chance(80) {
 					p.refID = objs[r.Intn(len(objs))].name
-				} else {
+				} else if r.Bool() {
 					p.refID = c19Ident(r, map[string]bool{})
+				} else {
+					// a referenced object whose name merely begins like a type ID
+					p.refID = wk.Pick(r, []string{"interval", "internalEndpoint", "intOrString", "integers", "floatingIP", "floats", "stringer", "boolish", "listing", "mapper", "objective", "refund", "anyone"})
 				}
 			}
 			objs[i].props = append(objs[i].props, p)
@@ -134,6 +139,13 @@ func c19YAML(r *wk.Rand, objs []c19Obj) string {
 	sb.WriteString("            objects:\n")
 	for _, o := range objs {
 		fmt.Fprintf(&sb, "                %s:\n", o.name)
+		if o.innerID == "" && len(o.props) == 0 && r.Bool() {
+			// an object without a body: the value of its key is null
+			s := sb.String()
+			sb.Reset()
+			sb.WriteString(strings.TrimSuffix(s, ":\n") + wk.Pick(r, []string{":\n", ": ~\n", ": null\n", ": {}\n"}))
+			continue
+		}
 		if o.innerID != "" {
 			fmt.Fprintf(&sb, "                    id: %s\n", o.innerID)
 		} else if len(o.props) == 0 {
